@@ -927,7 +927,138 @@ func c14Run(c *Ctx, sc *c14Scenario, cfg simrt.Config, path string, from int, mo
 	return life
 }
 
+// ---- a catalogue of several hundred tasks: listing pages and the restart see every one of them ----
+
+type c14BulkScenario struct {
+	Kind    string `json:"kind"`
+	Total   int    `json:"tasks"`
+	Enabled []int  `json:"enabled_positions"` // positions (in id order) of the enabled tasks
+	Page    int    `json:"listing_page_size"`
+	Config  string `json:"config"`
+}
+
+func runC14Bulk(c *Ctx) Verdict {
+	g := c.G
+	sc := &c14BulkScenario{Kind: "large catalogue", Total: g.Range(195, 330), Page: []int{100, 50, 64, 7}[g.Intn(4)]}
+	for i := 0; i < sc.Total; i++ {
+		// few enabled tasks, spread over the whole id range and always some near the end
+		if g.Chance(1, 16) || i >= sc.Total-3 {
+			sc.Enabled = append(sc.Enabled, i)
+		}
+	}
+	c.Scenario = sc
+	cfg := c.WorldConfig()
+	cfg.MaxSteps = 30_000_000
+	sc.Config = fmt.Sprintf("%v p=%.2f", cfg.Strategy, cfg.SwitchProb)
+	var verdict Verdict
+	enabled := map[string]bool{}
+	for _, i := range sc.Enabled {
+		enabled[fmt.Sprintf("k%03d", i)] = true
+	}
+	res := c.World(cfg, func() {
+		st, err := harness.NewSimStorage("")
+		if err != nil {
+			verdict = Fail("harness/setup", "open store: %v", err)
+			return
+		}
+		d, err := harness.NewDaemon(harness.DaemonOpts{Store: st, WithTaskStore: true, Influx: &harness.FakeInflux{}})
+		if err != nil {
+			verdict = Fail("harness/setup", "daemon: %v", err)
+			return
+		}
+		done := simrt.Expect("creating the tasks", 30_000_000, 24*time.Hour)
+		for i := 0; i < sc.Total; i++ {
+			id := fmt.Sprintf("k%03d", i)
+			status := "disabled"
+			if enabled[id] {
+				status = "enabled"
+			}
+			if code, body := c14Request(d, c14Op{Kind: "createTask", ID: id, Script: 1, Status: status, DBRP: "db"}); code != 200 {
+				verdict = Fail("harness/setup", "create %s -> %d %s", id, code, body)
+				return
+			}
+		}
+		done()
+		check := func(when string) bool {
+			simrt.WaitIdle()
+			// every task appears exactly once when the listing is read page by page
+			seen := map[string]int{}
+			exec := map[string]bool{}
+			for off := 0; off < sc.Total+sc.Page; off += sc.Page {
+				code, body := d.Do("GET", fmt.Sprintf("/kapacitor/v1/tasks?offset=%d&limit=%d&fields=id&fields=status&fields=executing", off, sc.Page), "")
+				var tl struct {
+					Tasks []struct {
+						ID        string `json:"id"`
+						Status    string `json:"status"`
+						Executing bool   `json:"executing"`
+					} `json:"tasks"`
+				}
+				if code != 200 || json.Unmarshal([]byte(body), &tl) != nil {
+					verdict = Fail("api/error", "%s: GET /tasks offset %d -> %d %s", when, off, code, truncateStr(body, 200))
+					return false
+				}
+				for _, t := range tl.Tasks {
+					seen[t.ID]++
+					exec[t.ID] = t.Executing
+					if (t.Status == "enabled") != enabled[t.ID] {
+						verdict = Fail("catalogue/differs", "%s: task %s is listed as %s, it was created enabled=%v", when, t.ID, t.Status, enabled[t.ID])
+						return false
+					}
+				}
+			}
+			for i := 0; i < sc.Total; i++ {
+				id := fmt.Sprintf("k%03d", i)
+				if seen[id] != 1 {
+					verdict = Fail("catalogue/differs", "%s: reading the listing of %d tasks in pages of %d shows task %s %d times", when, sc.Total, sc.Page, id, seen[id])
+					return false
+				}
+				if exec[id] != enabled[id] || d.TM.IsExecuting(id) != enabled[id] {
+					verdict = Fail("executing/out-of-step", "%s: task %s (position %d of %d in id order) is enabled=%v (its start succeeds), the API says executing=%v and the task master %v", when, id, i, sc.Total, enabled[id], exec[id], d.TM.IsExecuting(id))
+					return false
+				}
+			}
+			if len(seen) != sc.Total {
+				verdict = Fail("catalogue/differs", "%s: the listing shows %d tasks, %d were defined", when, len(seen), sc.Total)
+				return false
+			}
+			return true
+		}
+		if !check("after creating the tasks") {
+			return
+		}
+		done = simrt.Expect("clean shutdown", 30_000_000, time.Hour)
+		d.Shutdown()
+		st.Close()
+		done()
+		simrt.Count("fault.restart.clean")
+		st2, err := harness.NewSimStorage(st.Path())
+		if err != nil {
+			verdict = Fail("harness/setup", "reopen store: %v", err)
+			return
+		}
+		done = simrt.Expect("restart", 30_000_000, 24*time.Hour)
+		d, err = harness.NewDaemon(harness.DaemonOpts{Store: st2, WithTaskStore: true, Influx: &harness.FakeInflux{}})
+		done()
+		if err != nil {
+			verdict = Fail("restart/open", "the daemon cannot open on the stored catalogue: %v", err)
+			return
+		}
+		check("after the restart")
+	})
+	if v, bad := WorldVerdict(res, false); bad {
+		return v
+	}
+	if verdict.Class != "" {
+		verdict.Shape = map[string]interface{}{"large_catalogue": true}
+		return verdict
+	}
+	return Pass()
+}
+
 func runC14(c *Ctx) Verdict {
+	if c.G.Chance(1, 120) {
+		return runC14Bulk(c)
+	}
 	sc := c14Gen(c)
 	c.Scenario = sc
 	cfg := c.WorldConfig()
@@ -1079,6 +1210,7 @@ func init() {
 		ID:  "C14",
 		Run: runC14,
 		Rule: "case = a history of 3-12/25 API requests (create task from a script or a template, patch script/status/id/template/vars/dbrps, delete, create and patch templates; valid and deliberately rejected ones, template updates that fail on one of their tasks, definitions whose start fails, a definition whose running pipeline fails on certain data (written by a 'boom' operation), some requests issued back to back) over 4 task ids and 2 template ids (one id a prefix of another in both sets), template deletion, interleaved with clean restarts and data writes, issued against the real HTTP handler; after every acknowledged request and every restart the catalogue read through GET /tasks, /tasks/<id> and /templates is compared with a reference catalogue, and executing with enabled; the history is then re-executed with an injected failure at up to 8 underlying storage writes inside accepted template updates, and with a crash at up to 8 storage transaction boundaries followed by a restart on a byte copy of the Bolt file and the rest of the history; " +
+			"(round 3) one opening in ten deletes a template and creates it again while tasks still name it, followed by a (often rejected) request on one of them and an update of the new template; one case in 120 instead defines 195-330 tasks (a sixteenth enabled, some at the end of the id order), reads the listing page by page (page 7-100), restarts cleanly and requires every enabled task to execute again; " +
 			"non-trivial = every case; distinct = distinct (scenario, interleaving signatures) tuples",
 		Real:        []string{"services/task_store Service (Open, HTTP handlers, DAOs, updateAllAssociatedTasks, startTask watcher)", "services/storage IndexedStore + Bolt adapter + real bbolt file", "services/httpd Handler routing", "TaskMaster (StartTask/StopTask/DeleteTask), pipeline construction, tick parser/evaluator/formatter"},
 		Stub:        []string{"harness StorageService wrapper: crash = abandon the world at a transaction boundary + byte copy; failing Put/Delete/Commit", "server.Server wiring replaced by the harness (storage, alert, task master, task store opened in server order)"},
